@@ -121,6 +121,24 @@ def run_case(ctx):
                                 f"multiset of (shape, bytes) differs from the stored boxes; "
                                 f"shapes got {[a.shape for a in got][:6]} want "
                                 f"{[common.expected_box(m, lv, b, fidx).shape for b in range(nb)][:6]}")
+            if src.flag(f"s{s}.poolfault", 8):
+                # fault-injecting configuration: the worker processes of the k-th pool of the iteration cannot be
+                # started (fork refused).  The iteration may fail; one that completes must still be exact
+                ctx.pool_fail_at = src.draw(f"s{s}.poolfault.k", 0, 1 if peek else 0)
+                try:
+                    o = run_tool(ctx, it, label=f"list(pck[{fdesc}][{lv}]) with a pool that cannot start")
+                finally:
+                    fired = ctx.pool_fail_at is None
+                    ctx.pool_fail_at = None
+                if fired:
+                    ctx.probe("pool_start_fault_fired")
+                    if o.ok and (not o.value[1] or sorted(common.arr_digest(a) for a in o.value[0]) != want):
+                        raise Violation({**sig, "oracle": "iteration-after-pool-start-failure"},
+                                        f"the worker pool could not be started (EAGAIN) while iterating {fdesc} at level "
+                                        f"{lv}; the iteration completed all the same and yielded {len(o.value[0])} arrays "
+                                        f"for {nb} boxes / another multiset than the stored boxes")
+                    if not o.ok:
+                        ctx.probe("pool_start_fault_reported")
             keyparts.append(("iter", fdesc, lv, peek))
             if peek:
                 ctx.probe("iterated_again_after_partial_iteration")
